@@ -20,7 +20,7 @@ def main() -> int:
     q = tier() == "quick"
     shape = f_shape(q, seed())
     grid = f_grid(True)
-    cases = shape + (grid[::8] if q else grid[::2])
+    cases = shape + (grid[::8] if q else grid)
     # large-capacity schemas cost many IR steps: only at two configurations
     cfgs = configs(q)
     jobs = []
